@@ -1260,7 +1260,7 @@ func c08RaceStream(t *testing.T, st *VStream, stats *VStats, log *logrus.Logger,
 	t0 := time.Now().UnixNano()
 	w.ins(t0, key, name, 1, 0, 77, 1, 0)
 	w.look(time.Now().UnixNano(), key, name, 1, false) // first request: latched
-	arms := rounds * 100
+	arms := rounds * 400
 	op := fmt.Sprintf("hammer t=%d key=%s arms=%d", time.Now().UnixNano(), c08Hex(key), arms)
 	out := VRecover(func() string {
 		v, ok := w.c.dnsCache.Load(key)
@@ -1284,22 +1284,17 @@ func c08RaceStream(t *testing.T, st *VStream, stats *VStats, log *logrus.Logger,
 				}
 			}()
 		}
-		dup := 0
 		for a := 0; a < arms; a++ {
 			before := grants.Load()
 			entry.MarkRefreshed()
-			for grants.Load() == before {
+			for grants.Load() == before { // somebody takes the latch
 				runtime.Gosched()
-			}
-			for spin := 0; spin < 200; spin++ { // let lookups that raced for this release finish
-				_ = grants.Load()
-			}
-			if grants.Load() != before+1 {
-				dup++
 			}
 		}
 		stop.Store(true)
 		wg.Wait()
+		// every release was followed by exactly one needRefresh=true  <=>  as many grants as releases
+		dup := int(grants.Load()) - arms
 		return fmt.Sprintf("hammer releases=%d extra_refresh_requests=%d", arms, dup)
 	})
 	st.Emit(op, out)
